@@ -6,10 +6,12 @@ package main
 
 import (
 	"fmt"
+	"math"
 	"sort"
 	"strconv"
 	"strings"
 	"sync"
+	"sync/atomic"
 	"time"
 
 	vegeta "github.com/tsenart/vegeta/v12/lib"
@@ -282,4 +284,79 @@ func runC04(c *run.Ctx, s *kit.Summary) {
 	}
 	wg.Wait()
 	st.Diff(c.Driver, s)
+	// last: these attacks cannot be ended (the loop sleeps for the wait it was given), so their goroutines stay
+	for i := 0; i < c.N(10, 120); i++ {
+		pk := parkCase{Workers: uint64(r.Pick(4)), Max: uint64(1 + r.Pick(4))}
+		for j := r.Pick(4); j > 0; j-- {
+			pk.Before = append(pk.Before, r.PickI64([]int64{0, 0, 1000, 200000, 1000000}))
+		}
+		pk.Park = r.PickI64([]int64{math.MaxInt64, math.MaxInt64, math.MaxInt64 - 1, math.MaxInt64 - r.Range(0, 3000000), math.MaxInt64 - r.Range(0, 200000000),
+			1 << 62, int64(100 * 365 * 24 * time.Hour)})
+		if r.Chance(0.4) {
+			pk.Du = r.Range(5, 40) * 1000000
+		}
+		parked(pk, s)
+	}
+}
+
+type parkCase struct {
+	Workers uint64  `json:"workers"`
+	Max     uint64  `json:"max"`
+	Du      int64   `json:"duration_ns"`
+	Before  []int64 `json:"waits_before_ns"`
+	Park    int64   `json:"parking_wait_ns"`
+}
+
+// parked: an adversarial pacer that, after a few ordinary answers, asks for a wait of (nearly) the largest
+// representable duration ("never"). For as long as anybody can observe, no further hit may start and the
+// pacer may not be consulted again — whatever arithmetic the loop does with that wait.
+func parked(pk parkCase, s *kit.Summary) {
+	p := &recPacer{}
+	for _, w := range pk.Before {
+		p.answers = append(p.answers, answer{time.Duration(w), false})
+	}
+	p.answers = append(p.answers, answer{time.Duration(pk.Park), false})
+	for i := 0; i < 100000; i++ { // what a loop that does not honour the parking wait would be told next
+		p.answers = append(p.answers, answer{0, false})
+	}
+	var started int64
+	client := attackctl.NewFakeClient(func(seq uint64) { atomic.AddInt64(&started, 1) })
+	atk := vegeta.NewAttacker(vegeta.Workers(pk.Workers), vegeta.MaxWorkers(pk.Max), vegeta.Client(client))
+	tr := vegeta.NewStaticTargeter(vegeta.Target{Method: "GET", URL: "http://verif.invalid/"})
+	p.t0 = time.Now()
+	res := atk.Attack(tr, p, time.Duration(pk.Du), "c04park")
+	go func() {
+		for range res {
+		}
+	}()
+	// wait until the parking answer has been given, then watch for a while
+	deadline := time.Now().Add(20 * time.Second)
+	for {
+		p.mu.Lock()
+		n := len(p.log)
+		p.mu.Unlock()
+		if n > len(pk.Before) || time.Now().After(deadline) {
+			break
+		}
+		time.Sleep(time.Millisecond)
+	}
+	time.Sleep(150 * time.Millisecond)
+	p.mu.Lock()
+	consults := len(p.log)
+	p.mu.Unlock()
+	hits := atomic.LoadInt64(&started)
+	atk.Stop()
+	s.Case(fmt.Sprint("park:", pk), true)
+	s.Count(fmt.Sprintf("parked:du=%v", pk.Du > 0))
+	if pk.Du > 0 && consults <= len(pk.Before) {
+		return // the deadline came before the parking answer: nothing to judge
+	}
+	if consults > len(pk.Before)+1 {
+		s.Violate(kit.Violation{Kind: "pace_consulted_before_wait_elapsed", What: "the pacer asked for a (practically) endless wait and was consulted again within 150ms",
+			Input: pk, Expected: fmt.Sprint(len(pk.Before)+1, " consultations"), Observed: fmt.Sprint(consults)})
+	}
+	if hits > int64(len(pk.Before)) {
+		s.Violate(kit.Violation{Kind: "hit_started_before_wait_elapsed", What: "a hit started although the wait its pacer answer asked for (practically endless) cannot have elapsed",
+			Input: pk, Expected: fmt.Sprint("<= ", len(pk.Before), " hits"), Observed: fmt.Sprint(hits)})
+	}
 }
